@@ -442,6 +442,11 @@ def enabled(st, b):
                     lines = [stmt_line(depth, head, "ctrl"), stmt_line(depth + 1, SIMPLE[sid](), "simple")]
                     out.append((Block(f"{tag}1:{sid}", "ctrl-single", lines),
                                 nxt(nlines=fn.nlines + 2, can_else=hid in ("if", "elif"))))
+    if room >= 2:
+        # a loop with an empty body: the lone ';' on the next line belongs to the same statement
+        lines = [stmt_line(depth, ctrl("while", index(V("p"), post(V("n"), "++"))), "ctrl"),
+                 Line(IND(depth + 1) + [P("semi", ";")], "cont", depth)]
+        out.append((Block("while:empty-body", "ctrl-single", lines, nstmts=1), nxt(nlines=fn.nlines + 2)))
     for hid, kw in (("if", "if"), ("while", "while")):
         h1 = [KW(kw), SP(), P("lp", "(")] + binop(V("n"), ">", C("0"))
         h2 = [P("binop", "&&"), SP()] + index(V("p"), V("n")) + [P("rp", ")")]
